@@ -2,6 +2,7 @@ import TucanProofs.Lemmas.LineMachinery
 import TucanProofs.Lemmas.SpliceAny
 import TucanProofs.Lemmas.WriteRead
 import TucanProofs.Examples
+import TucanProofs.Lemmas.WriteReadAny
 /-!
 # C09 — written molfiles read back as the same molecule, at any line length
 
@@ -31,6 +32,28 @@ theorem C09_write_read (g : Graph) (hw : g.WF) (hs : g.Simple) (hlab : g.labels 
       (∀ i j bt, (j, ({ btype := some bt } : Bond)) ∈ g'.nbrsD i ↔
           ∃ d, (j, d) ∈ g.nbrsD i ∧ d.btype.getD 1 = bt) :=
   write_read g hw hs hlab hatoms hbonds hsize hdr hh
+
+/-- **… for a graph listed in ANY order** (what `relabel_nodes` returns: canonical graphs in particular have the
+labels `0 … n-1` listed in another order).  The atom lines carry `label + 1` in listing order, the reader
+renumbers in file order: the graph read back is the written graph with its `i`-th listed node renamed `i` —
+same element, charge, radical, mass, coordinate tokens on that node, and `i`, `j` bonded with type `bt` exactly
+when the `i`-th and `j`-th listed nodes were. -/
+theorem C09_write_read_any_listing (g : Graph) (hw : g.WF) (hs : g.Simple)
+    (hlab : g.labels.Perm (List.range g.numberOfNodes))
+    (hatoms : ∀ n ∈ g.nodes, WritableAtom n)
+    (hbonds : ∀ n ∈ g.nodes, ∀ e ∈ n.nbrs, ∀ bt, e.2.btype = some bt → (intRepr bt).length ≤ intMaxStrDigits)
+    (hsize : (natRepr (g.numberOfNodes + g.numberOfEdges + 1)).length ≤ intMaxStrDigits)
+    (hdr : Str) (hh : GoodHeader hdr) :
+    ∃ lines g', graphToMolfileLines g hdr = .ok lines ∧
+      (∀ l ∈ lines, l.length ≤ 79 ∨ l = hdr) ∧
+      graphFromMolfileText (joinLines lines) = .ok g' ∧
+      g'.labels = List.range g.numberOfNodes ∧ g'.WF ∧ g'.Simple ∧
+      (∀ i (hi : i < g.nodes.length), ∃ z, atomicNumberOf ((g.nodes[i].attrs.sym).getD []) = .ok z ∧
+          g'.attrs? i = some (readBackAtom g.nodes[i].attrs z)) ∧
+      (∀ i j (hi : i < g.nodes.length) (hj : j < g.nodes.length) (bt : Int),
+          (j, ({ btype := some bt } : Bond)) ∈ g'.nbrsD i ↔
+          ∃ d, (g.nodes[j].id, d) ∈ g.nbrsD g.nodes[i].id ∧ d.btype.getD 1 = bt) :=
+  write_read_any_listing g hw hs hlab hatoms hbonds hsize hdr hh
 
 /-- **No line is longer than 80 characters including the newline**, for logical lines of every length. -/
 theorem C09_line_length (line : Str) : ∀ p ∈ addV30Line line, p.length ≤ 79 := addV30Line_length_le line
